@@ -60,6 +60,8 @@ func requestOf(op Op) (httpReq, error) {
 		p["pattern"] = map[string]interface{}(op.Val)
 		if op.Inh {
 			p["inherited"] = "true"
+		} else if len(op.Id)%2 == 0 && len(fmt.Sprint(op.Val))%2 == 0 {
+			p["inherited"] = "false" // said explicitly now and then (a string in query and form renderings)
 		}
 	case "AddRule":
 		r.uri = "/loc/rules/add"
@@ -93,6 +95,8 @@ func requestOf(op Op) (httpReq, error) {
 		r.uri = "/loc/rules/list"
 		if op.Inh {
 			p["inherited"] = "true"
+		} else if len(op.Loc)%2 == 1 {
+			p["inherited"] = "false"
 		}
 	case "ProcessEvent":
 		r.uri = "/loc/events/ingest"
